@@ -7,7 +7,6 @@ package h_xtables
 import (
 	"fmt"
 	"io"
-	"os"
 	"sort"
 	"strings"
 	"testing"
@@ -211,10 +210,12 @@ type harness struct {
 
 	appliedThisIncarnation bool
 
-	// allowForceDowngrade lets UpdateChain replace a force-programmed chain by a non-forced one.
-	// Off by default: that transition leaks reference counts in the Table (reported finding), and
-	// would mask everything else.  VERIF_XT_FORCE_DOWNGRADE=1 turns it on for reproduction.
+	// allowForceDowngrade: may UpdateChain replace a force-programmed chain by a non-forced one?
+	// Generator bound: on a tree where that transition leaks reference counts in the Table (a
+	// known finding outside C15: a defined-but-unreferenced chain stays programmed) the force
+	// flag is sticky per chain.  Decided per run by forceDowngradeLeaks(), a fixed three-call probe.
 	allowForceDowngrade bool
+	quiet               bool
 }
 
 // ---- ownership (restated from the property, not from the Table's regexes): a rule is Felix's if
@@ -480,7 +481,9 @@ func (h *harness) checkMinimality(before *kernel, input string) {
 
 func (h *harness) newTable(why string) {
 	h.incarnation++
-	h.r.Logf("=== new Table (incarnation %d, %s)", h.incarnation, why)
+	if !h.quiet {
+		h.r.Logf("=== new Table (incarnation %d, %s)", h.incarnation, why)
+	}
 	if h.m != nil {
 		h.prevModel = h.m
 	}
@@ -738,6 +741,23 @@ func (h *harness) opApply(strictExpected bool) applyOutcome {
 	return out
 }
 
+// forceDowngradeLeaks runs the fixed reproduction of the known UpdateChain reference-count leak
+// (forced chain replaced by a non-forced one that jumps to another chain) against a scratch Table
+// over an empty scratch kernel.  It draws nothing and logs nothing.
+func forceDowngradeLeaks(r *core.R) bool {
+	p := &harness{r: r, now: simEpoch, verified: map[string]verifiedChain{}, quiet: true}
+	p.cfg = config{table: "filter", ipVersion: 4, backend: "legacy", insertMode: "insert", refresh: 90 * time.Second,
+		postWrite: time.Second, iptVersion: "1.8.4", verbatim: true}
+	p.k = newKernel("filter", tableBuiltins["filter"], false)
+	p.newTable("probe")
+	p.tbl.UpdateChain(&generictables.Chain{Name: "cali-p0", ForceProgramming: true})
+	p.tbl.UpdateChain(&generictables.Chain{Name: "cali-p1", Rules: []generictables.Rule{{Match: iptables.Match(), Action: iptables.AcceptAction{}}}})
+	p.tbl.UpdateChain(&generictables.Chain{Name: "cali-p0", Rules: []generictables.Rule{{Match: iptables.Match(), Action: iptables.JumpAction{Target: "cali-p1"}}}})
+	p.inApply = true
+	p.tbl.Apply()
+	return p.k.has("cali-p1")
+}
+
 var simEpoch = time.Date(2022, 1, 1, 0, 0, 0, 0, time.UTC)
 
 func run(r *core.R) {
@@ -751,8 +771,8 @@ func run(r *core.R) {
 		"stale_chain_removed", "old_insert_removed", "diag_save_before_panic", "very_slow_command", "restart_same_state_no_write",
 		"liveness_1", "liveness_2", "liveness_3", "insert_rules_now", "check_rules_present")
 	src := r.Src
-	h := &harness{r: r, now: simEpoch, verified: map[string]verifiedChain{}, allowForceDowngrade: os.Getenv("VERIF_XT_FORCE_DOWNGRADE") != ""}
-	r.Cfg("allow_force_downgrade", h.allowForceDowngrade)
+	h := &harness{r: r, now: simEpoch, verified: map[string]verifiedChain{}, allowForceDowngrade: !forceDowngradeLeaks(r)}
+	r.Cfg("force_downgrade_generated", h.allowForceDowngrade)
 	c := &h.cfg
 	c.table = []string{"filter", "nat", "mangle", "raw"}[src.Weighted([]int{5, 2, 2, 1}, "cfg_table")]
 	c.ipVersion = []uint8{4, 6}[src.Weighted([]int{3, 1}, "cfg_ipv")]
